@@ -35,3 +35,22 @@ Example C14_nonvacuous :
   static_ifelse GS GenAudit.ifelse_static_exprs (MSecret, BBool) (MPublic, BInt) (MConst, BInt) = SType (MSecret, BInt)
   /\ static_bin GS "_types_compare" (MConst, BInt) (MPublic, BInt) = SType (MPublic, BBool).
 Proof. split; vm_compute; reflexivity. Qed.
+
+(* ---- whole expressions: the checker's rules applied bottom-up (inputs of the six shared classes, integer literals,
+   + - *, the six comparisons, if_else, to any depth).  Whenever they give a type, abstract execution under ANY
+   valuation of the inputs yields a value of exactly that class — and (with C15's induction) the exact result. *)
+From NadaV.Proofs Require Import C14Expr.
+Theorem C14_expressions : forall ρ e t, wf e -> sty_of e = SType t ->
+  in_shared t = true /\ exists v, abs_eval GA ρ e = AValue t (Some v) /\ value_kind t v.
+Proof. exact checker_sound_on_expressions. Qed.
+Print Assumptions C14_expressions.
+
+Theorem C14_expressions_exact : forall ρ e t, wf e -> sty_of e = SType t ->
+  exists v, abs_eval GA ρ e = AValue t (Some v) /\ exact_eval ρ e = Some v.
+Proof. exact checker_sound_and_exact. Qed.
+Print Assumptions C14_expressions_exact.
+
+Example C14_expressions_nonvacuous :
+  sty_of (AIf (ABin OLt (AIn (MSecret, BInt) 0) (ALit 5)) (ABin OMul (AIn (MPublic, BInt) 1) (ALit 2)) (AIn (MPublic, BInt) 1))
+  = SType (MSecret, BInt).
+Proof. vm_compute. reflexivity. Qed.
